@@ -19,6 +19,11 @@
 //!    compaction that shrinks level 0; while ingest is parked some compaction thread is awake;
 //!    an installing ingest wakes every sleeping compaction thread, a finishing compaction every
 //!    sleeping ingest; no store thread exits.
+//!  * `fail`: one compaction fails once (sst/ out of reach while a compaction thread selects and
+//!    starts it, at five depths), its thread returns the error, a fresh thread takes over and the
+//!    store is driven to the stall threshold: the failed compaction must be off the `ongoing` list
+//!    (every later `sched.select` that found nothing reports the list's length, `verif_status` at
+//!    the end), every call returns.
 //!  * directed D-15 replays: trees in which the only relieving compaction exceeds
 //!    `max_compaction_files` (found single-stepped, or grown by the threads themselves when no
 //!    merge fits the limit), then real threads: everybody parks, decided by the accessor.
@@ -422,7 +427,7 @@ enum Role {
 
 enum Msg {
     Hello(Role, u64),
-    Exit(Role, Result<(), String>),
+    Exit(Role, u64, Result<(), String>),
 }
 
 type Event = (u64, u64, &'static str, [u64; 3]);
@@ -442,6 +447,21 @@ struct Workload {
     /// KVS mode: writers go on (up to `ops` calls each) until the monitor has seen the flush
     /// thread asleep on `stall` with every compaction thread asleep and no wake-up on its way
     until_stall: bool,
+    /// before anything else runs: every file of sst/ is put out of reach (the directory is
+    /// renamed), a compaction thread is started as compactor 0, the compaction it selects fails on
+    /// its first input and the thread returns the error; the directory is put back and a fresh
+    /// thread takes over as compactor 0 (the premise: a compaction thread is running)
+    fail_first: bool,
+}
+
+/// the compaction that was made to fail: levels, number of inputs, how the thread ended
+#[derive(Clone, Debug)]
+struct Injected {
+    lower: usize,
+    upper: usize,
+    inputs: usize,
+    thread: u64,
+    result: Result<(), String>,
 }
 
 struct RunOut {
@@ -458,6 +478,7 @@ struct RunOut {
     client_errors: Vec<String>,
     problem: Option<String>,
     polls: u64,
+    injected: Option<Injected>,
 }
 
 enum Store {
@@ -528,6 +549,45 @@ fn run_threads(seed: u64, case: u64, tag: &str, cfg: &Cfg, w: &Workload, prepare
     let stop = Arc::new(std::sync::atomic::AtomicBool::new(false));
     let mut handles = vec![];
     let keys = alphabet(w.nkeys);
+    let progress = Arc::new(AtomicU64::new(0));
+    // one compaction that fails
+    let mut injected: Option<Injected> = None;
+    if w.fail_first {
+        let sst_dir = format!("{}/sst", root);
+        let aside = format!("{}/sst.aside", root);
+        std::fs::rename(&sst_dir, &aside).map_err(|e| format!("rename sst/: {}", e))?;
+        let (itx, irx) = mpsc::channel();
+        let run_thread: Box<dyn FnOnce() -> Result<(), String> + Send> = match &store {
+            Store::Kvs(k) => {
+                let k = Arc::clone(k);
+                Box::new(move || k.compaction_thread().map_err(|e| err_class(&e)))
+            }
+            Store::Tree(t) => {
+                let t = Arc::clone(t);
+                Box::new(move || t.compaction_thread().map_err(|e| err_class(&e)))
+            }
+        };
+        handles.push(std::thread::spawn(move || {
+            let tid = lsmtk::verif::thread_id();
+            let r = guarded(AssertUnwindSafe(run_thread)).unwrap_or_else(|p| Err(format!("panic:{}", p)));
+            let _ = itx.send((tid, r, lsmtk::verif::take_chosen()));
+        }));
+        let got = irx.recv_timeout(Duration::from_secs(30));
+        let back = std::fs::rename(&aside, &sst_dir);
+        match got {
+            Ok((tid, r, chosen)) => {
+                back.map_err(|e| format!("rename sst/ back: {}", e))?;
+                let last = chosen.last();
+                injected = Some(Injected { lower: last.map(|c| c.lower_level).unwrap_or(99), upper: last.map(|c| c.upper_level).unwrap_or(99), inputs: last.map(|c| c.inputs.len()).unwrap_or(0), thread: tid, result: r });
+            }
+            Err(_) => {
+                // nothing was selectable or the compaction did not fail: the thread sleeps on
+                store.shutdown();
+                lsmtk::verif::events_enable(false);
+                return Err("the compaction thread started on an unreachable sst/ did not return within 30 s".into());
+            }
+        }
+    }
     // store threads
     for c in 0..w.compactors {
         let tx = tx.clone();
@@ -538,7 +598,7 @@ fn run_threads(seed: u64, case: u64, tag: &str, cfg: &Cfg, w: &Workload, prepare
                 handles.push(std::thread::spawn(move || {
                     let _ = tx.send(Msg::Hello(role, lsmtk::verif::thread_id()));
                     let r = guarded(AssertUnwindSafe(|| k.compaction_thread().map_err(|e| err_class(&e)))).unwrap_or_else(|p| Err(format!("panic:{}", p)));
-                    let _ = tx.send(Msg::Exit(role, r));
+                    let _ = tx.send(Msg::Exit(role, lsmtk::verif::thread_id(), r));
                 }));
             }
             Store::Tree(t) => {
@@ -546,7 +606,7 @@ fn run_threads(seed: u64, case: u64, tag: &str, cfg: &Cfg, w: &Workload, prepare
                 handles.push(std::thread::spawn(move || {
                     let _ = tx.send(Msg::Hello(role, lsmtk::verif::thread_id()));
                     let r = guarded(AssertUnwindSafe(|| t.compaction_thread().map_err(|e| err_class(&e)))).unwrap_or_else(|p| Err(format!("panic:{}", p)));
-                    let _ = tx.send(Msg::Exit(role, r));
+                    let _ = tx.send(Msg::Exit(role, lsmtk::verif::thread_id(), r));
                 }));
             }
         }
@@ -558,7 +618,7 @@ fn run_threads(seed: u64, case: u64, tag: &str, cfg: &Cfg, w: &Workload, prepare
         handles.push(std::thread::spawn(move || {
             let _ = tx.send(Msg::Hello(role, lsmtk::verif::thread_id()));
             let r = guarded(AssertUnwindSafe(|| k.memtable_thread().map_err(|e| err_class(&e)))).unwrap_or_else(|p| Err(format!("panic:{}", p)));
-            let _ = tx.send(Msg::Exit(role, r));
+            let _ = tx.send(Msg::Exit(role, lsmtk::verif::thread_id(), r));
         }));
     }
     // clients
@@ -573,6 +633,7 @@ fn run_threads(seed: u64, case: u64, tag: &str, cfg: &Cfg, w: &Workload, prepare
                 let k = Arc::clone(k);
                 let role = Role::Writer(c);
                 let stop = Arc::clone(&stop);
+                let progress = Arc::clone(&progress);
                 handles.push(std::thread::spawn(move || {
                     let _ = tx.send(Msg::Hello(role, lsmtk::verif::thread_id()));
                     let mut res = Ok(());
@@ -626,17 +687,19 @@ fn run_threads(seed: u64, case: u64, tag: &str, cfg: &Cfg, w: &Workload, prepare
                             .map_err(|e| err_class(&e))
                         }))
                         .unwrap_or_else(|p| Err(format!("panic:{}", p)));
+                        progress.fetch_add(1, Ordering::SeqCst);
                         if let Err(e) = r {
                             res = Err(format!("op {}: {}", j, e));
                             break;
                         }
                     }
-                    let _ = tx.send(Msg::Exit(role, res));
+                    let _ = tx.send(Msg::Exit(role, lsmtk::verif::thread_id(), res));
                 }));
             }
             Store::Tree(t) => {
                 let t = Arc::clone(t);
                 let role = Role::Ingester(c);
+                let progress = Arc::clone(&progress);
                 handles.push(std::thread::spawn(move || {
                     let _ = tx.send(Msg::Hello(role, lsmtk::verif::thread_id()));
                     let mut res = Ok(());
@@ -655,12 +718,13 @@ fn run_threads(seed: u64, case: u64, tag: &str, cfg: &Cfg, w: &Workload, prepare
                         ks.dedup();
                         let vlen = rng.range(w.vlen.0, w.vlen.1) as usize;
                         let r = build_sst(&aux_dir, &format!("i{}f{}", c, j), &ks, vlen).and_then(|p| guarded(AssertUnwindSafe(|| t.ingest(&p).map_err(|e| err_class(&e)))).unwrap_or_else(|p| Err(format!("panic:{}", p))));
+                        progress.fetch_add(1, Ordering::SeqCst);
                         if let Err(e) = r {
                             res = Err(format!("ingest {}: {}", j, e));
                             break;
                         }
                     }
-                    let _ = tx.send(Msg::Exit(role, res));
+                    let _ = tx.send(Msg::Exit(role, lsmtk::verif::thread_id(), res));
                 }));
             }
         }
@@ -669,6 +733,17 @@ fn run_threads(seed: u64, case: u64, tag: &str, cfg: &Cfg, w: &Workload, prepare
     // monitor
     let n_store_threads = w.compactors + if w.kvs_mode { 1 } else { 0 };
     let mut roles: HashMap<u64, Role> = HashMap::new();
+    let mut exited_tids: BTreeSet<u64> = BTreeSet::new();
+    let n_expected = n_store_threads + w.clients + if injected.is_some() { 1 } else { 0 };
+    if let Some(inj) = &injected {
+        // the thread whose compaction failed was compactor 0; the fresh thread continues as such
+        roles.insert(inj.thread, Role::Compactor(0));
+        exited_tids.insert(inj.thread);
+    }
+    let mut events: Vec<Event> = vec![];
+    let mut last_progress = Instant::now();
+    let mut last_count = 0u64;
+    const PATIENCE_S: u64 = 12;
     let mut exits: Vec<(Role, Result<(), String>)> = vec![];
     let mut clients_done = 0usize;
     let mut client_errors = vec![];
@@ -683,8 +758,11 @@ fn run_threads(seed: u64, case: u64, tag: &str, cfg: &Cfg, w: &Workload, prepare
             match rx.try_recv() {
                 Ok(Msg::Hello(role, tid)) => {
                     roles.insert(tid, role);
+                    last_progress = Instant::now();
                 }
-                Ok(Msg::Exit(role, r)) => {
+                Ok(Msg::Exit(role, tid, r)) => {
+                    exited_tids.insert(tid);
+                    last_progress = Instant::now();
                     if is_client(&role) {
                         clients_done += 1;
                         if let Err(e) = &r {
@@ -696,16 +774,31 @@ fn run_threads(seed: u64, case: u64, tag: &str, cfg: &Cfg, w: &Workload, prepare
                 Err(_) => break,
             }
         }
-        if roles.len() == n_store_threads + w.clients {
+        {
+            // the log is drained as the run goes: new events or finished calls are progress
+            // (only the scheduler's events: the monitor's own `verif_parked` takes snapshots, which
+            // are events of other hooks)
+            let mut ev: Vec<Event> = lsmtk::verif::take_events().into_iter().filter(|e| e.2.starts_with("sched.")).collect();
+            let count = progress.load(Ordering::SeqCst);
+            if !ev.is_empty() || count != last_count {
+                last_progress = Instant::now();
+                last_count = count;
+            }
+            events.append(&mut ev);
+        }
+        let mut notified_sleepers = vec![];
+        if roles.len() == n_expected {
             // threads that can still act: store threads that have not exited, clients not done
             let (parked, status) = store.parked();
             polls += 1;
-            let exited: BTreeSet<Role> = exits.iter().map(|e| e.0).collect();
             let mut all_asleep = true;
             let mut asleep = vec![];
             for (tid, role) in roles.iter() {
-                if exited.contains(role) {
+                if exited_tids.contains(tid) {
                     continue;
+                }
+                if let Some(p) = parked.iter().find(|p| p.thread == *tid && p.notified) {
+                    notified_sleepers.push((*role, p.condvar));
                 }
                 match parked.iter().find(|p| p.thread == *tid) {
                     Some(p) if !p.notified => asleep.push((*role, p.condvar)),
@@ -732,6 +825,20 @@ fn run_threads(seed: u64, case: u64, tag: &str, cfg: &Cfg, w: &Workload, prepare
                 break;
             }
         }
+        if last_progress.elapsed() > Duration::from_secs(PATIENCE_S) {
+            // nothing has happened for a long time although the run has not ended: no event, no
+            // call returned, no thread started or exited
+            let (parked, status) = store.parked();
+            let store_asleep = roles.iter().filter(|(tid, r)| !is_client(r) && !exited_tids.contains(*tid)).all(|(tid, _)| parked.iter().any(|p| p.thread == *tid));
+            problem = Some(if !notified_sleepers.is_empty() {
+                format!("notified-sleeper-did-not-wake: no event and no call returned for {} s; a notification was issued for {:?} and they still sleep; {} of {} clients done; should_stall_ingest={} selectable={} in flight={}", PATIENCE_S, notified_sleepers, clients_done, w.clients, status.0, status.1, status.2)
+            } else if store_asleep && clients_done < w.clients {
+                format!("client-call-never-returned: no event and no call returned for {} s; every store thread sleeps ({:?}), {} of {} clients done and the others sleep on no condition variable of the store; should_stall_ingest={} selectable={} in flight={}", PATIENCE_S, parked.iter().map(|p| p.condvar).collect::<Vec<_>>(), clients_done, w.clients, status.0, status.1, status.2)
+            } else {
+                format!("no-progress: no event and no call returned for {} s; {} of {} clients done, sleepers {:?}", PATIENCE_S, clients_done, w.clients, parked.iter().map(|p| (p.thread, p.condvar, p.notified)).collect::<Vec<_>>())
+            });
+            break;
+        }
         if Instant::now() > deadline {
             problem = Some(format!("no quiescence within 90 s: {} of {} clients done, {} store threads exited", clients_done, w.clients, exits.len() - clients_done));
             break;
@@ -739,7 +846,7 @@ fn run_threads(seed: u64, case: u64, tag: &str, cfg: &Cfg, w: &Workload, prepare
         std::thread::sleep(Duration::from_micros(300));
     }
     lsmtk::verif::events_enable(false);
-    let events = lsmtk::verif::take_events();
+    events.append(&mut lsmtk::verif::take_events());
     let end_levels = store.tree().verif_dump();
     end_parked.sort();
     // a store thread that failed on a missing file: where is the file, and what does the manifest
@@ -776,8 +883,10 @@ fn run_threads(seed: u64, case: u64, tag: &str, cfg: &Cfg, w: &Workload, prepare
     // tear down: make the loops return where they would sleep
     store.shutdown();
     let t0 = Instant::now();
-    let mut alive = handles.len() - exits.len();
-    while alive > 0 && t0.elapsed() < Duration::from_secs(30) {
+    let mut alive = handles.len() - exited_tids.len();
+    // a run that was cut off may hold threads that nothing wakes (they are left behind)
+    let grace = if problem.is_some() { 3 } else { 30 };
+    while alive > 0 && t0.elapsed() < Duration::from_secs(grace) {
         match rx.recv_timeout(Duration::from_millis(200)) {
             Ok(Msg::Exit(..)) => alive -= 1,
             Ok(_) => {}
@@ -797,7 +906,7 @@ fn run_threads(seed: u64, case: u64, tag: &str, cfg: &Cfg, w: &Workload, prepare
     drop(store);
     let _ = std::fs::remove_dir_all(&root);
     let _ = std::fs::remove_dir_all(&aux_dir);
-    Ok(RunOut { events, roles, end_parked, end_status, end_levels, start_l0: (start.l0, start.l0b), exits, clients_done, client_errors, problem, polls })
+    Ok(RunOut { events, roles, end_parked, end_status, end_levels, start_l0: (start.l0, start.l0b), exits, clients_done, client_errors, problem, polls, injected })
 }
 
 // ------------------------------------------------------------------ the log as a model run -----
@@ -818,10 +927,11 @@ struct Trace {
     max_inflight: usize,
     max_l0: u64,
     sleeper_with_work: u64,
+    aborts: u64,
 }
 
 fn abstract_trace(out: &RunOut, ni: usize, nc: usize) -> Trace {
-    let mut t = Trace { toks: vec![], sel_violated: false, problems: vec![], ingest_parks: 0, ingest_released: 0, compact_parks: 0, compact_wakes: 0, spurious: 0, installs: 0, finishes_l0: 0, finishes_deep: 0, max_inflight: 0, max_l0: 0, sleeper_with_work: 0 };
+    let mut t = Trace { toks: vec![], sel_violated: false, problems: vec![], ingest_parks: 0, ingest_released: 0, compact_parks: 0, compact_wakes: 0, spurious: 0, installs: 0, finishes_l0: 0, finishes_deep: 0, max_inflight: 0, max_l0: 0, sleeper_with_work: 0, aborts: 0 };
     // mirror kept from the implementation's events alone
     let mut parked_i: BTreeMap<usize, usize> = BTreeMap::new(); // ingester -> position of its park
     let mut parked_c: BTreeSet<usize> = BTreeSet::new();
@@ -899,13 +1009,15 @@ fn abstract_trace(out: &RunOut, ni: usize, nc: usize) -> Trace {
                         t.sleeper_with_work += 1;
                     }
                 } else {
-                    t.toks.push(format!("Sn{}", c));
+                    t.toks.push(format!("Sn{}:{}", c, a[2]));
                     last_select_none = Some(c);
                     if stall && a[2] == 0 {
                         t.sel_violated = true;
                     }
-                    if (a[2] == 0) != inflight.is_empty() {
-                        problems.push(("ongoing-differs-from-in-flight-threads".into(), format!("event {}: ongoing {} in flight {:?}", pos, a[2], inflight)));
+                    // the ongoing list the selector saw holds exactly the compactions in flight: in
+                    // particular none that has finished or failed
+                    if a[2] as usize != inflight.len() {
+                        problems.push(("ongoing-list-differs-from-compactions-in-flight".into(), format!("event {}: next_compaction() saw {} ongoing compaction(s), in flight are those of compactors {:?}{}", pos, a[2], inflight, if t.aborts > 0 { " (a compaction failed earlier in this run)" } else { "" })));
                     }
                 }
             }
@@ -944,7 +1056,15 @@ fn abstract_trace(out: &RunOut, ni: usize, nc: usize) -> Trace {
                 }
             }
             ("sched.compact.abort", Role::Compactor(c)) => {
-                problems.push(("compaction-failed".into(), format!("compactor {} at {}", c, pos)));
+                // the failed compaction is released under the mutex: it is no longer in flight
+                t.toks.push(format!("A{}", c));
+                t.aborts += 1;
+                if !inflight.remove(&c) {
+                    problems.push(("abort-without-selection".into(), format!("compactor {} at {}", c, pos)));
+                }
+                if out.injected.as_ref().map(|i| i.thread) != Some(*tid) {
+                    problems.push(("compaction-failed".into(), format!("compactor {} at {}", c, pos)));
+                }
             }
             (tag, role) => problems.push(("event-from-unexpected-thread".into(), format!("{} from {:?} at {}", tag, role, pos))),
         }
@@ -989,7 +1109,21 @@ fn run_case(rec: &mut Recorder, seed: u64, case: u64, label: &str, cfg: &Cfg, w:
     // ---- oracle, on the implementation's observations only
     let mut fails: Vec<(String, String)> = vec![];
     if let Some(p) = &out.problem {
-        fails.push(("run-did-not-end".into(), p.clone()));
+        let class = match p.split(':').next() {
+            Some(c) if ["notified-sleeper-did-not-wake", "client-call-never-returned", "no-progress"].contains(&c) => c,
+            _ => "run-did-not-end",
+        };
+        fails.push((class.into(), format!("{} {}: {}", label, cfg.render(), p)));
+    }
+    if w.fail_first {
+        match &out.injected {
+            Some(i) if matches!(&i.result, Err(m) if m.contains("NotFound")) && i.inputs > 0 => {}
+            other => fails.push(("injected-failure-did-not-happen".into(), format!("{} {}: {:?}", label, cfg.render(), other))),
+        }
+    }
+    if out.problem.is_none() && out.end_status.2 != 0 {
+        // every compaction thread sleeps, so no compaction is in flight: the ongoing list must be empty
+        fails.push(("ongoing-entry-without-a-compaction-in-flight".into(), format!("{} {}: at the end of the run every compaction thread sleeps on `compact` and the ongoing list still holds {} compaction(s){}; should_stall_ingest={} next_compaction().is_some()={}; {} of {} ingest callers asleep on `stall`", label, cfg.render(), out.end_status.2, match &out.injected { Some(i) => format!(" (the compaction of levels {}->{} with {} input(s) was made to fail once and its thread returned the error)", i.lower, i.upper, i.inputs), None => String::new() }, out.end_status.0, out.end_status.1, wi, ni)));
     }
     let store_exits: Vec<&(Role, Result<(), String>)> = out.exits.iter().filter(|(r, _)| matches!(r, Role::Compactor(_)) || (w.kvs_mode && matches!(r, Role::Ingester(_)))).collect();
     if !store_exits.is_empty() {
@@ -1035,6 +1169,10 @@ fn run_case(rec: &mut Recorder, seed: u64, case: u64, label: &str, cfg: &Cfg, w:
     }
     // ---- statistics
     rec.count(&format!("run.{}", label));
+    if let Some(i) = &out.injected {
+        rec.count(&if i.inputs == 1 { format!("fail.failed_compaction.move_L{}_to_L{}", i.lower, i.upper) } else if i.lower == 0 { format!("fail.failed_compaction.level0_merge_to_L{}", i.upper) } else { format!("fail.failed_compaction.merge_L{}_to_L{}", i.lower, i.upper) });
+        rec.add("fail.compactions_after_the_failure", tr.finishes_l0 + tr.finishes_deep);
+    }
     rec.count(&format!("run.compactors{}", nc));
     rec.add("run.events", tr.toks.len() as u64);
     rec.add("run.ingest_parks", tr.ingest_parks);
@@ -1056,7 +1194,7 @@ fn run_case(rec: &mut Recorder, seed: u64, case: u64, label: &str, cfg: &Cfg, w:
     if stalled {
         rec.count("run.ended_in_permanent_stall");
     }
-    let nontrivial = tr.ingest_parks > 0 && tr.compact_parks > 0;
+    let nontrivial = (tr.ingest_parks > 0 && tr.compact_parks > 0) || (tr.aborts > 0 && tr.finishes_l0 + tr.finishes_deep > 0);
     let verdict = match fails.into_iter().next() {
         None => Verdict::Ok,
         Some((class, detail)) => Verdict::Fail { class, detail },
@@ -1108,7 +1246,7 @@ fn gen_workload(rng: &mut Rng, kvs_mode: bool, thorough: bool) -> Workload {
     let clients = if kvs_mode { rng.range(1, 4) as usize } else { rng.range(2, 4) as usize };
     let budget = if thorough { 90 } else { 45 };
     let ops = if kvs_mode { rng.range(budget / 3, budget) as usize } else { (rng.range(budget / 9, budget / 3) as usize).max(3) };
-    Workload { compactors, kvs_mode, clients, ops, nkeys: *rng.pick(&[4usize, 8, 16]), wide: rng.chance(1, 2), vlen: (4, *rng.pick(&[12u64, 40, 90])), pause: *rng.pick(&[0u64, 3, 6]), until_stall: false }
+    Workload { compactors, kvs_mode, clients, ops, nkeys: *rng.pick(&[4usize, 8, 16]), wide: rng.chance(1, 2), vlen: (4, *rng.pick(&[12u64, 40, 90])), pause: *rng.pick(&[0u64, 3, 6]), until_stall: false, fail_first: false }
 }
 
 /// D-15, found single-stepped: write and flush overlapping files, compacting to quiescence in
@@ -1159,10 +1297,94 @@ fn prepare_stalled_tree(store: &Store, nkeys: usize, per_write: usize) -> Result
     Err("no stalled tree with nothing selectable within 20000 single steps".into())
 }
 
+/// the tree on which one compaction is made to fail, built single-stepped.  Every file spans the
+/// whole key range.  shape 0: one file in level 0 (next: its move to level 1); 1: one file in
+/// level 1 (its move to level 2); 2: one file sunk to level 6 (a move deep in the tree); 3: a small
+/// file sunk to level 15, a larger one to level 14 and a third to level 13 (the merge of the two
+/// deepest levels, a garbage-collecting compaction); 4: under a file limit of 2, fifteen files of decreasing size
+/// sunk to levels 15..1 (no pair of neighbours is worth merging), then a small file in level 0 (the
+/// mandatory merge of level 0 into level 1)
+fn prepare_fail_shape(store: &Store, aux: &str, shape: u64, nkeys: usize) -> Result<(), String> {
+    let keys = alphabet(nkeys);
+    let n = std::cell::Cell::new(0u64);
+    let add = |vlen: usize| -> Result<(), String> {
+        n.set(n.get() + 1);
+        let ks = vec![keys[0].clone(), keys[1 + (n.get() as usize % (nkeys - 2))].clone(), keys[nkeys - 1].clone()];
+        match store {
+            Store::Tree(t) => {
+                let path = build_sst(aux, &format!("p{:03}", n.get()), &ks, vlen)?;
+                t.ingest(&path).map_err(|e| format!("ingest-error:{}", err_class(&e)))
+            }
+            Store::Kvs(k) => {
+                let mut wb = lsmtk::WriteBatch::with_capacity(3);
+                for key in &ks {
+                    let v: Vec<u8> = format!("p{:03}", n.get()).into_bytes().into_iter().chain(std::iter::repeat(b'.')).take(vlen).collect();
+                    wb.put(key, &v);
+                }
+                k.write(wb).map_err(|e| format!("write-error:{}", err_class(&e)))?;
+                k.verif_request_flush();
+                lsmtk::verif::set_single_step(Some(0));
+                let r = k.memtable_thread();
+                lsmtk::verif::set_single_step(None);
+                r.map_err(|e| format!("flush-error:{}", err_class(&e)))
+            }
+        }
+    };
+    let compact = |steps: usize| -> Result<usize, String> {
+        let mut done = 0;
+        for _ in 0..steps {
+            lsmtk::verif::set_single_step(Some(1));
+            let r = match store {
+                Store::Tree(t) => t.compaction_thread(),
+                Store::Kvs(k) => k.compaction_thread(),
+            };
+            lsmtk::verif::set_single_step(None);
+            let chosen = lsmtk::verif::take_chosen();
+            r.map_err(|e| format!("compaction-error:{}", err_class(&e)))?;
+            if chosen.is_empty() {
+                break;
+            }
+            done += 1;
+        }
+        Ok(done)
+    };
+    match shape {
+        0 => add(60)?,
+        1 => {
+            add(60)?;
+            compact(1)?;
+        }
+        2 => {
+            add(60)?;
+            compact(6)?;
+        }
+        3 => {
+            add(20)?;
+            compact(15)?;
+            add(120)?;
+            compact(14)?;
+            // level 13 large enough for the level curve to let level 14 compact
+            add(60)?;
+            compact(13)?;
+        }
+        _ => {
+            for i in 0..15usize {
+                add(400 - 24 * i)?;
+                compact(40)?;
+            }
+            add(8)?;
+        }
+    }
+    if !store.tree().verif_status().1 {
+        return Err(format!("shape {}: nothing is selectable on the prepared tree", shape));
+    }
+    Ok(())
+}
+
 pub fn run(args: &Args) {
     let mut rec = Recorder::new(&args.out, args.only_case);
     let seed = args.seed;
-    let streams = std::env::var("C20_STREAMS").unwrap_or_else(|_| "sel,run,d15".to_string());
+    let streams = std::env::var("C20_STREAMS").unwrap_or_else(|_| "sel,run,d15,fail".to_string());
     let timing = std::env::var("C20_TIMING").is_ok();
     // ---- stream 1: selector differential on single-stepped states
     let (nh, len) = if args.thorough { (180, 60) } else { (48, 40) };
@@ -1214,7 +1436,7 @@ pub fn run(args: &Args) {
                 cfg.target_file = 128;
                 let nkeys = *rng.pick(&[8usize, 16, 30]);
                 let per = *rng.pick(&[2usize, 4, 6]);
-                let w = Workload { compactors: rng.range(1, 4) as usize, kvs_mode: true, clients: rng.range(1, 3) as usize, ops: 12, nkeys: 6, wide: true, vlen: (8, 30), pause: 3, until_stall: false };
+                let w = Workload { compactors: rng.range(1, 4) as usize, kvs_mode: true, clients: rng.range(1, 3) as usize, ops: 12, nkeys: 6, wide: true, vlen: (8, 30), pause: 3, until_stall: false, fail_first: false };
                 label = "d15-prepared";
                 run_case(&mut rec, seed, case, label, &cfg, &w, true, &move |s: &Store, _: &str| prepare_stalled_tree(s, nkeys, per));
             }
@@ -1224,7 +1446,7 @@ pub fn run(args: &Args) {
                 cfg.stall_files = *rng.pick(&[2u64, 3, 4]);
                 cfg.mcf = 1;
                 cfg.mand_files = *rng.pick(&[1u64, 4]);
-                let w = Workload { compactors: rng.range(1, 3) as usize, kvs_mode: true, clients: 2, ops: 4000, nkeys: 6, wide: true, vlen: (30, 60), pause: 4, until_stall: true };
+                let w = Workload { compactors: rng.range(1, 3) as usize, kvs_mode: true, clients: 2, ops: 4000, nkeys: 6, wide: true, vlen: (30, 60), pause: 4, until_stall: true, fail_first: false };
                 label = "d15-grown-kvs";
                 run_case(&mut rec, seed, case, label, &cfg, &w, true, &no_prepare);
             }
@@ -1234,7 +1456,7 @@ pub fn run(args: &Args) {
                 cfg.stall_files = *rng.pick(&[2u64, 3]);
                 cfg.mcf = 1;
                 cfg.mand_files = 1;
-                let w = Workload { compactors: rng.range(1, 3) as usize, kvs_mode: false, clients: 3, ops: 8, nkeys: 6, wide: true, vlen: (8, 30), pause: 3, until_stall: false };
+                let w = Workload { compactors: rng.range(1, 3) as usize, kvs_mode: false, clients: 3, ops: 8, nkeys: 6, wide: true, vlen: (8, 30), pause: 3, until_stall: false, fail_first: false };
                 label = "d15-grown-tree";
                 run_case(&mut rec, seed, case, label, &cfg, &w, true, &no_prepare);
             }
@@ -1243,8 +1465,42 @@ pub fn run(args: &Args) {
             eprintln!("d15 {} {} {:?} {}", d, label, t0.elapsed(), cfg.render());
         }
     }
+    // ---- stream 4: one compaction fails once (its thread returns the error, a fresh thread takes
+    // over), then ingest is driven to the stall threshold and beyond
+    let nf = if args.thorough { 20 } else { 6 };
+    for f in 0..(if streams.contains("fail") { nf } else { 0 }) {
+        let mut rng = Rng::for_case(seed, 2004, f);
+        let t0 = Instant::now();
+        let shape = if f < 6 { [0u64, 1, 2, 3, 4, 0][f as usize] } else { f % 5 };
+        let kvs_mode = f == 5 || (f >= 6 && f % 3 == 0);
+        let mut cfg = Cfg::base();
+        // inputs are opened by path: no cached handle survives the directory's absence
+        cfg.cache = 0;
+        cfg.memtable = 64;
+        cfg.stall_files = *rng.pick(&[2u64, 3, 4]);
+        cfg.mand_files = if shape == 4 { 1 } else { *rng.pick(&[1u64, 2, 4]) };
+        if shape == 4 {
+            cfg.stall_files = 1;
+            cfg.mcf = 2;
+        }
+        let compactors = rng.range(1, 3) as usize;
+        let w = if shape == 4 {
+            // under a file limit of 2 further ingests run into D-15 (the merged level 1 is split
+            // along the files below it): the failed merge is retried by the fresh thread, no client
+            Workload { compactors, kvs_mode, clients: 0, ops: 0, nkeys: 6, wide: true, vlen: (8, 30), pause: 0, until_stall: false, fail_first: true }
+        } else if kvs_mode {
+            Workload { compactors, kvs_mode: true, clients: 2, ops: 40, nkeys: 6, wide: true, vlen: (30, 60), pause: 4, until_stall: false, fail_first: true }
+        } else {
+            Workload { compactors, kvs_mode: false, clients: 3, ops: 8, nkeys: 6, wide: true, vlen: (8, 30), pause: 3, until_stall: false, fail_first: true }
+        };
+        let label = format!("fail-shape{}-{}", shape, if kvs_mode { "kvs" } else { "tree" });
+        run_case(&mut rec, seed, 20_000 + f, &label, &cfg, &w, false, &move |s: &Store, aux: &str| prepare_fail_shape(s, aux, shape, 6));
+        if timing {
+            eprintln!("fail {} {} {:?} {}", f, label, t0.elapsed(), cfg.render());
+        }
+    }
     rec.finish(
-        "three streams on the real store (hooks/lsmtk-sched-hooks.diff). sel: single-stepped histories (writes over 3-30 keys, flushes, compaction steps; a third of them with ingest given priority so that level 0 sits at the stall threshold) over an options grid (stall / mandatory thresholds in files and bytes, stall below mandatory, max_compaction_files above / at / below the stall threshold, max_compaction_bytes, max_open_files 6-24 with the cache off, memtable and target file sizes); after every op should_stall_ingest / next_compaction().is_some() and the tree summary (|L0|, bytes, level-1 files under the hull, sel, D-15 trigger) vs. the Lean selector model; non-trivial = level 0 and a deeper level both hold files, distinct by tree. run: real threads (1-4 compaction threads, flush thread + 1-4 writers doing put/del/batch, or 2-4 direct LsmTree::ingest callers; thresholds 1-6 files or 300-2500 bytes, file limit down to threshold+2, compaction byte limit 400-6000), the complete scheduling event log abstracted to the alphabet of Blue.Stall and replayed by the Lean driver, end of run decided by the parked-on accessor, oracle on the log itself; non-trivial = an ingest parked on `stall` and a compaction thread parked on `compact` at least once, distinct by configuration (traces vary with the schedule, verdicts do not). d15: directed replays of the permanent stall (tree found single-stepped then real threads; or grown by the threads themselves), every one expected to end with every store thread asleep.",
+        "four streams on the real store (scheduler hooks of /repo 6de6846). sel: single-stepped histories (writes over 3-30 keys, flushes, compaction steps; a third of them with ingest given priority so that level 0 sits at the stall threshold) over an options grid (stall / mandatory thresholds in files and bytes, stall below mandatory, max_compaction_files above / at / below the stall threshold, max_compaction_bytes, max_open_files 6-24 with the cache off, memtable and target file sizes); after every op should_stall_ingest / next_compaction().is_some() and the tree summary (|L0|, bytes, level-1 files under the hull, sel, D-15 trigger) vs. the Lean selector model; non-trivial = level 0 and a deeper level both hold files, distinct by tree. run: real threads (1-4 compaction threads, flush thread + 1-4 writers doing put/del/batch, or 2-4 direct LsmTree::ingest callers; thresholds 1-6 files or 300-2500 bytes, file limit down to threshold+2, compaction byte limit 400-6000), the complete scheduling event log abstracted to the alphabet of Blue.Stall and replayed by the Lean driver, end of run decided by the parked-on accessor, oracle on the log itself; non-trivial = an ingest parked on `stall` and a compaction thread parked on `compact` at least once, distinct by configuration (traces vary with the schedule, verdicts do not). d15: directed replays of the permanent stall (tree found single-stepped then real threads; or grown by the threads themselves), every one expected to end with every store thread asleep. fail: on a tree built single-stepped, sst/ is put out of reach and a compaction thread started: the compaction it selects (move 0->1, move 1->2, move 6->7, the garbage-collecting merge 14->15, the mandatory merge of level 0 into level 1) fails on its first input and the thread returns the error; sst/ is put back, a fresh thread takes over, 1-3 compaction threads and ingest callers / writers run to the stall threshold and beyond; oracle: the ongoing list every later selection saw holds exactly the compactions in flight, is empty at the end, every call returns, nobody is left asleep on `stall`. A run that makes no progress (no scheduler event, no call returned) for 12 s is cut off and classified from the registry (notified sleeper that never woke / client call that never returned).",
         &[],
     );
 }
